@@ -62,6 +62,8 @@ _SELF_MS = MethodSet([
     dict(pos=[("x", ("K", 0), False)], body="return ('leaf', 2)", selfarg=True),
     dict(pos=[("x", ("obj",), False)], body="return ('leaf', 3)", selfarg=True),
     dict(pos=[("x", ("raw", "tuple"), False)], body="return tuple(call_next(a) if False else recurse(a) for a in x)", selfarg=True),
+    dict(pos=[("x", ("raw", "list"), False)], body="return list(map(recurse, x))", selfarg=True),          # recurse as a value (not inlined)
+    dict(pos=[("x", ("K", 0), False)], body="return ('leaf', 6)", selfarg=True),                           # a subclass's own leaf
 ])
 
 
@@ -94,6 +96,20 @@ def make_run_self(W, shape):
                 if entered and not same:
                     ok = False
                 if not all(en[3] is h for en in LOG):
+                    ok = False
+        # the function of a BASE class called on an instance of a subclass that carries its own function under the same name: recurse inside
+        # the base's methods is the base's function (the one through which the call was dispatched), bound to that instance
+        ov2 = ov.copy()
+        ov2.register(hs[6], priority=0)
+        Sub = type("Sub", (Holder,), {"f": ov2})
+        sub = Sub()
+        for name, e in (("K0()", W.inst[0]), ("object()", object())):
+            direct = full_outcome(lambda: Holder.f(sub, e), LOG)
+            nested = full_outcome(lambda: Holder.f(sub, [e]), LOG)
+            if nested[0][:1] in ([0], [5]):
+                same = (nested[1] == ["ret", "[" + direct[1][1] + "]"]) if direct[1][0] == "ret" else (nested[1][0] != "ret")
+                trace.append(dict(element=name, container="[e], through the base class's function on a subclass instance", direct=direct, nested=nested))
+                if not same or not all(en[3] is sub for en in LOG):
                     ok = False
         return Verdict(ok, (), dict(family="methods with self", methods=shape["methods"], derive=shape.get("derive"), trace=trace), ["self"], nontrivial=True)
 
@@ -305,7 +321,7 @@ def gen_shapes(tier, seed):
     fam.append([["new", [11, 3, 5]], ["variant", 0, 4, False]])
     N = 420 if tier == "quick" else 8000
     shapes = [dict(n=3, ops=h) for h in fam]
-    shapes += [dict(n=3, selffam=True, methods=ms_, derive=dv, ops=[]) for ms_ in ([0, 1, 2, 3], [0, 1, 3], [0, 2, 3], [0, 4, 1, 2, 3], [0, 1, 2])
+    shapes += [dict(n=3, selffam=True, methods=ms_, derive=dv, ops=[]) for ms_ in ([0, 1, 2, 3], [0, 1, 3], [0, 2, 3], [0, 4, 1, 2, 3], [0, 1, 2], [5, 2, 3], [5, 1, 2, 3])
                for dv in (None, "copy", "variant")]
     for _ in range(N):
         shapes.append(dict(n=3, ops=gen_graph(rng, rng.choice((3, 4, 5, 6)))))
